@@ -70,7 +70,8 @@ def run_part(ctx, tier):
                                                     (4, 0.5, 2.5, [1, 2, 3, 4], [2, 3, 4, 5], 1, 0)]:
         lines = ["#class tools::histo::h1d", "#title test-h", "#dimension 1", f"#axis fixed {nb} {lo} {hi}", "#planes_Sxyw 0",
                  "entries,Sw,Sw2,Sxw0,Sx2w0"]
-        rows = [(under, under, under)] + list(zip(freq, freq, err2)) + [(over, over, over)]
+        # the entries column counts fills, the others are weighted sums: every row carries three different numbers
+        rows = [(under + 3, under, under * 2)] + [(f_ + 1, f_, e_) for f_, e_ in zip(freq, err2)] + [(over + 5, over, over * 3)]
         for (e, sw, sw2) in rows:
             lines.append(f"{e},{sw},{sw2},0,0")
         fd, path = tempfile.mkstemp(suffix=".csv")
